@@ -171,6 +171,19 @@ if job.get('nested'):
             rec['inside1'] = norm(alone) in norm(in1)
             rec['inside2'] = norm(alone) in norm(in2)
             rec['stable'] = norm(again) == norm(alone)      # indentation follows the nesting level: compared without white space
+            # serialising reads and nothing else does either: a deep copy is taken and stripped of its attributes - the element itself still serialises the same
+            import copy as _copy
+            try:
+                cp = _copy.deepcopy(e)
+                for x in [cp] + [y for y in cp.traverse()] if hasattr(cp, 'traverse') else [cp]:
+                    for k in list(x.attributes):
+                        try:
+                            setattr(x, k.replace('-', '_').replace(':', '_'), None)
+                        except Exception:
+                            pass
+                rec['stable'] = rec['stable'] and norm(ts(e)) == norm(alone)
+            except Exception:
+                pass
             if not (rec['inside1'] and rec['inside2'] and rec['stable']):
                 rec['alone'] = alone[:600]
                 rec['in'] = in1[:800]
